@@ -5,6 +5,7 @@ import WebAuthnModel.Generated.Core
 import WebAuthnModel.Generated.TpmAndroid
 import WebAuthnModel.Model.KeyDesc
 import WebAuthnModel.Model.Tpm2
+import WebAuthnModel.Model.San
 /-
   The seven attestation statement verification procedures (attestation_statement*.go, certificate.go).
   Dependencies (x509, asn1, go-tpm, go-jose, crypto) are oracles; everything the repository itself decides —
@@ -248,11 +249,12 @@ def stmtBytes (stmt : List (Bytes × Value)) (name : String) : Option Bytes :=
   | some v => asBytes v
   | none => none
 
-/-- `tpm.GetHardwareDetailsFromCertificate(cert)` succeeds: decided by the model of that function on the parsed SAN view -/
-def hardwareDetailsOK (der : Bytes) : Prog Bool := do
-  match ← query (.sanView der) with
-  | .san exts => pure (Tpm.detailsFromSan exts).isSome
-  | _ => pure false
+/-- the SAN extensions of a certificate, in order, as `San.parseExt` reads their values (byte level; `Model/San.lean`) -/
+def sanViews (c : CertView) : List Tpm.SanExt :=
+  (c.exts.filter (fun e => e.oid == Generated.Tpm.oidSAN)).map (fun e => (San.parseExt e.value).1)
+
+/-- `tpm.GetHardwareDetailsFromCertificate(cert)` succeeds -/
+def hardwareDetailsOK (c : CertView) : Bool := (Tpm.detailsFromSan (sanViews c)).isSome
 
 /-- the TPM hash algorithms linked into the process (an answer of another shape is an empty table: no digest name decodes) -/
 def askHashes : Prog Tpm2.HashTable := do
@@ -309,7 +311,7 @@ def verifyTPM (o : AttObj) (cdHash : Bytes) : Prog (Option Result) := do
             | (der, c) :: rest =>
               if !(← askBool (.x509CheckSig der (Cose.algX509 alg) ciEnc (getSignature o.stmt))) then pure none
               else if c.version ≠ 3 then pure none
-              else if !(← hardwareDetailsOK der) then pure none
+              else if !hardwareDetailsOK c then pure none
               else if !c.unknownEKUs.contains Generated.Core.oidAIKCertificate then pure none
               else if c.isCA then pure none
               else pure (some ⟨"AttCA", der :: rest.map (·.1)⟩)
